@@ -1502,8 +1502,18 @@ Proof.
 Qed.
 
 (* giving back an area that was just carved out of the free space (fixes/fsm-resize-leak.diff) *)
+(* every block in use stays in use *)
+Definition Keeps (s s' : fsm) : Prop := forall i, 0 <= i < nbits s -> getb (bm s) i = true -> getb (bm s') i = true.
+Lemma keeps_refl : forall s, Keeps s s. Proof. intros s i _ H. exact H. Qed.
+Lemma keeps_alloc : forall s s' off n, allocated_from s s' off n -> Keeps s s'.
+Proof.
+  intros s s' off n Ha i Hi Hb. rewrite (alloc_flips_only_own s s' off n i Ha Hi).
+  destruct ((off <=? i) && (i <? off + n)); [reflexivity|exact Hb].
+Qed.
+
 Lemma carved_release : forall s s1 off n, Good s -> BmArea s -> allocated_from s s1 off n ->
-  Inv (snd (blk_deallocate s1 off n)) /\ BmArea (snd (blk_deallocate s1 off n)) /\ same_cfg s (snd (blk_deallocate s1 off n)).
+  Inv (snd (blk_deallocate s1 off n)) /\ BmArea (snd (blk_deallocate s1 off n)) /\ same_cfg s (snd (blk_deallocate s1 off n)) /\
+  Keeps s (snd (blk_deallocate s1 off n)).
 Proof.
   intros s s1 off n Hg Hba Ha. pose proof Ha as (I1 & C1 & A1 & A2 & A3 & A4 & A5).
   assert (Hg1 : Good s1) by (apply (good_cfg s); assumption).
@@ -1516,7 +1526,19 @@ Proof.
     symmetry. apply andb_true_iff. split; [apply Z.leb_le|apply Z.ltb_lt]; lia. }
   pose proof (blk_deallocate_good s1 off n Hg1 Hlive) as H.
   destruct (blk_deallocate s1 off n) as [rc s2]. destruct H as (_ & (I2 & _) & C2 & B2). simpl.
-  split; [exact I2|]. split; [|eapply same_cfg_trans; eassumption].
+  assert (HK : Keeps s s2).
+  { intros i Hi Hb. rewrite B2, A5.
+    assert (Hout : ~ (off <= i < off + n)) by (intros Hc; rewrite A4 in Hb by exact Hc; discriminate).
+    rewrite getb_set_range by (rewrite ?set_range_length, ?Hl1; lia).
+    replace ((off <=? i) && (i <? off + n)) with false
+      by (symmetry; destruct (off <=? i) eqn:Q1; [|reflexivity]; destruct (i <? off + n) eqn:Q2; [|reflexivity];
+          apply Z.leb_le in Q1; apply Z.ltb_lt in Q2; exfalso; apply Hout; lia).
+    rewrite getb_set_range by (rewrite ?Hl1; lia).
+    replace ((off <=? i) && (i <? off + n)) with false
+      by (symmetry; destruct (off <=? i) eqn:Q1; [|reflexivity]; destruct (i <? off + n) eqn:Q2; [|reflexivity];
+          apply Z.leb_le in Q1; apply Z.ltb_lt in Q2; exfalso; apply Hout; lia).
+    exact Hb. }
+  split; [exact I2|]. split; [|split; [eapply same_cfg_trans; eassumption|exact HK]].
   destruct Hba as (B1 & B3 & B4 & B5 & B6). destruct C2 as (W1 & W2 & W3 & W4 & W5 & W6 & W7).
   unfold BmArea, nbits in *. rewrite W2, W4, W5, V2, V4, V5.
   split; [exact B1|]. split; [exact B3|]. split; [exact B4|]. split; [exact B5|].
@@ -1537,7 +1559,7 @@ Qed.
 
 Definition resize_outcome (s : fsm) (size : Z) (r : Z * fsm) : Prop :=
   let '(rc, s') := r in
-  (rc = 0 /\ s' = s) \/ (rc <> 0 /\ Inv s' /\ BmArea s' /\ same_cfg s s') \/
+  (rc = 0 /\ s' = s) \/ (rc <> 0 /\ Inv s' /\ BmArea s' /\ same_cfg s s' /\ Keeps s s') \/
   (rc = 0 /\ Inv s' /\ BmArea s' /\ Grown s s' /\ bmlen s' = IW_ROUNDUP size (aunit s) /\ bmlen s < bmlen s' /\ vr s' = vr s /\ bpow s' = bpow s /\ aunit s' = aunit s /\
    hdrlen s' = hdrlen s /\ strict s' = strict s).
 
@@ -1588,9 +1610,9 @@ Proof.
     destruct (init_lw s nbmoff nbmlen) as [rc s'] eqn:Ei. unfold init_outcome in Ho.
     replace (fx_leak (vr s) && negb (rc =? 0) && false) with false by (rewrite andb_false_r; reflexivity). cbv iota.
     destruct Ho as [(Hrc & [->| ->])|(-> & I' & O1 & O2 & O3 & O4 & O5 & O6 & O7 & O8)].
-    + right; left. split; [exact Hrc|]. split; [exact Hi|]. split; [exact Hba|apply same_cfg_refl].
+    + right; left. split; [exact Hrc|]. split; [exact Hi|]. split; [exact Hba|split; [apply same_cfg_refl|apply keeps_refl]].
     + right; left. split; [exact Hrc|]. destruct (ensure_fields s (nbmoff + nbmlen)) as [E C].
-      split; [apply Inv_ensure_size; exact Hi|]. split; [|exact C].
+      split; [apply Inv_ensure_size; exact Hi|]. split; [|split; [exact C|intros i _ Hb1; rewrite E; exact Hb1]].
       destruct C as (_ & C2 & _ & C4 & C5 & _). unfold BmArea, nbits. rewrite E, C2, C4, C5. exact Hba.
     + right; right. split; [reflexivity|]. split; [exact I'|].
       assert (HG : Grown s s').
@@ -1643,11 +1665,12 @@ Proof.
     destruct Ho as [(Hrc & [->| ->])|(-> & I' & O1 & O2 & O3 & O4 & O5 & O6 & O7 & O8)].
     + destruct (fx_leak (vr s) && negb (rc =? 0) && true).
       * right; left. split; [exact Hrc|]. apply (carved_release s s1 off _ HgS Hba Ha).
-      * right; left. split; [exact Hrc|]. split; [exact I1|]. split; [exact Hba1|exact C1].
+      * right; left. split; [exact Hrc|]. split; [exact I1|]. split; [exact Hba1|split; [exact C1|apply (keeps_alloc s s1 off _ Ha)]].
     + destruct (fx_leak (vr s) && negb (rc =? 0) && true).
       * right; left. split; [exact Hrc|]. apply (carved_release s _ off _ HgS Hba). apply allocated_from_ensure. exact Ha.
       * right; left. split; [exact Hrc|]. destruct (ensure_fields s1 (shl off (bpow s) + nbmlen)) as [E C].
-        split; [apply Inv_ensure_size; exact I1|]. split; [|eapply same_cfg_trans; eassumption].
+        split; [apply Inv_ensure_size; exact I1|].
+        split; [|split; [eapply same_cfg_trans; eassumption|intros i Hi1 Hb1; rewrite E; apply (keeps_alloc s s1 off _ Ha i Hi1 Hb1)]].
         destruct C as (_ & C2 & _ & C4 & C5 & _). unfold BmArea, nbits. rewrite E, C2, C4, C5. exact Hba1.
     + replace (fx_leak (vr s) && negb (0 =? 0) && true) with false by (simpl; rewrite andb_false_r; reflexivity). cbv iota.
       right; right. split; [reflexivity|]. split; [exact I'|].
